@@ -136,6 +136,40 @@ func (g *enumGuard) stateAt(fn *ssa.Function, base ssa.Value, at ssa.Instruction
 	return res.At(at)
 }
 
+// unconditionalHelper lifts pred over one level of helper calls: a static call of a function of package pkg every
+// path through which passes an instruction satisfying pred (concludeProposal(p, reason, ok): the status change is
+// what the helper is for) counts like the instruction itself; a helper that only may do it (countVote) does not.
+func unconditionalHelper(pred InstrPred, pkg string) InstrPred {
+	memo := map[*ssa.Function]bool{}
+	return func(in ssa.Instruction) bool {
+		if pred(in) {
+			return true
+		}
+		call, ok := in.(ssa.CallInstruction)
+		if !ok {
+			return false
+		}
+		g := core.StaticCallee(call)
+		if g == nil || len(g.Blocks) == 0 || core.PkgOf(g) != pkg {
+			return false
+		}
+		if v, ok := memo[g]; ok {
+			return v
+		}
+		res := len(sites(g, pred)) > 0
+		if res {
+			rs := core.Reach([]core.Point{core.EntryOf(g)}, pred, nil)
+			for _, ret := range core.Returns(g) {
+				if rs.Has(ret) {
+					res = false
+				}
+			}
+		}
+		memo[g] = res
+		return res
+	}
+}
+
 // C15: proposals conclude only by their voting rule, once, one vote per admin.
 func C15(c *Ctx) {
 	r := c.R
@@ -230,7 +264,64 @@ func C15(c *Ctx) {
 			if e.addr == nil {
 				return core.EdgeSet{}
 			}
-			return core.EqualityEdges(e.fn, func(v ssa.Value) bool { return v == e.addr }, fieldLoad("Role", "ID"), true)
+			es := core.EqualityEdges(e.fn, func(v ssa.Value) bool { return v == e.addr }, fieldLoad("Role", "ID"), true)
+			// a lookup helper `e, found := findElector(list, addr)`: found is true only behind addr == e.ID inside the helper
+			for _, call := range core.Calls(e.fn) {
+				cl, isCall := call.(*ssa.Call)
+				h := core.StaticCallee(call)
+				if !isCall || h == nil || len(h.Blocks) == 0 || core.PkgOf(h) != core.PkgOf(e.fn) {
+					continue
+				}
+				res := h.Signature.Results()
+				bi := res.Len() - 1
+				if res.Len() < 2 || res.At(bi).Type().String() != "bool" {
+					continue
+				}
+				ai := -1
+				for i, a := range cl.Call.Args {
+					if core.Strip(a) == e.addr && i < len(h.Params) {
+						ai = i
+					}
+				}
+				if ai < 0 {
+					continue
+				}
+				hp := ssa.Value(h.Params[ai])
+				eq := core.EqualityEdges(h, func(v ssa.Value) bool { return v == hp }, fieldLoad("Role", "ID"), true)
+				if eq.Len() == 0 {
+					continue
+				}
+				rs := core.Reach([]core.Point{core.EntryOf(h)}, nil, core.CutOf(eq))
+				guard := true
+				for _, ret := range core.Returns(h) {
+					if !rs.Has(ret) || len(ret.Results) <= bi {
+						continue
+					}
+					for _, o := range core.RetOrigins(ret.Results[bi]) {
+						if k, isC := core.Strip(o.V).(*ssa.Const); !isC || k.Value == nil || k.Value.ExactString() != "false" {
+							guard = false
+						}
+					}
+				}
+				if !guard {
+					continue
+				}
+				for b, mm := range condEdges(e.fn, func(f core.Fact, ifi *ssa.If) (bool, int) {
+					if f.Kind != core.FBool || f.Field != "" {
+						return false, 0
+					}
+					ex, ok := core.Strip(f.Subject).(*ssa.Extract)
+					if !ok || ex.Index != bi || ex.Tuple != ssa.Value(cl) {
+						return false, 0
+					}
+					return true, holdsEdge(f)
+				}) {
+					for i := range mm {
+						es.Add(b, i)
+					}
+				}
+			}
+			return es
 		}
 		mkAbsent := func(e voteEnv) core.EdgeSet {
 			// ballot absent: `_, ok := p.BallotMap[addr]; ok` false edge
@@ -368,7 +459,7 @@ func C15(c *Ctx) {
 				if !e.Own || e.Fn == nil {
 					continue
 				}
-				nf += c.mustFollow("R15.4", e.Key(), e.Fn, func(in ssa.Instruction) bool {
+				nf += c.mustFollow("R15.4", e.Key(), e.Fn, unconditionalHelper(func(in ssa.Instruction) bool {
 					call, ok := in.(ssa.CallInstruction)
 					if !ok || core.StaticCallee(call) != chg {
 						return false
@@ -385,7 +476,7 @@ func C15(c *Ctx) {
 						}
 					}
 					return true
-				}, func(in ssa.Instruction) bool {
+				}, core.PkgOf(e.Fn)), func(in ssa.Instruction) bool {
 					call, ok := in.(ssa.CallInstruction)
 					return ok && core.StaticCallee(call) == handle
 				}, "concluding status change", "handleResult")
@@ -512,6 +603,18 @@ func C15(c *Ctx) {
 				st := in.(*ssa.Store)
 				call, idx := core.CallOf(st.Val)
 				ok := call != nil && core.StaticCallee(call) == ge && idx == 0
+				if !ok {
+					// the electorate read by a helper that hands its results back in a struct (info.electorate)
+					if vals, isRes := core.ReturnedFieldValues(st.Val); isRes && len(vals) > 0 {
+						ok = true
+						for _, w := range vals {
+							c2, i2 := core.CallOf(w)
+							if c2 == nil || core.StaticCallee(c2) != ge || i2 != 0 {
+								ok = false
+							}
+						}
+					}
+				}
 				r.Check(ok, "R15.6", "SubmitProposal: ElectorateList", c.P.Pos(in.Pos()), "ElectorateList = getElectorate() result 0",
 					"the proposal's ElectorateList is not the list returned by getElectorate")
 			}
